@@ -103,6 +103,97 @@ fn run(case: &Case, out: &mut Out) {
                 let flat: Vec<u8> = bufs.concat();
                 check_prefix(&mut st, &flat, w, out, &op.name);
             }
+            "h2conv" => {
+                // h2conv <max> <ended> <seed> W <w>.. C <n>..
+                let max = a[0].n() as usize;
+                let ended = a[1].n() != 0;
+                let seed = a[2].n() as u64;
+                let mut ws: Vec<i32> = vec![];
+                let mut cs: Vec<usize> = vec![];
+                let mut mode = 0;
+                for t in &a[3..] {
+                    match t {
+                        Tok::S(m) if m == "W" => mode = 1,
+                        Tok::S(m) if m == "C" => mode = 2,
+                        Tok::N(n) if mode == 1 => ws.push(*n as i32),
+                        Tok::N(n) if mode == 2 => cs.push(*n as usize),
+                        _ => {}
+                    }
+                }
+                let chunks: Vec<Vec<u8>> = cs.iter().enumerate().map(|(i, n)| pattern(*n, seed + i as u64)).collect();
+                let body: Vec<u8> = chunks.concat();
+                let (rounds, left) = sozu_lib::protocol::mux::verif_c01::convert_body(&ws, max, 5, &chunks, ended);
+                let mut toks = vec![];
+                let mut got: Vec<u8> = vec![];
+                let mut end_seen = false;
+                for (ri, (bytes, after)) in rounds.iter().enumerate() {
+                    toks.push(ts("R"));
+                    toks.push(tn(*after));
+                    let before = ws[ri];
+                    let mut i = 0usize;
+                    let mut sent = 0usize;
+                    while i + 9 <= bytes.len() {
+                        let len = ((bytes[i] as usize) << 16) | ((bytes[i + 1] as usize) << 8) | bytes[i + 2] as usize;
+                        let (ty, flags) = (bytes[i + 3], bytes[i + 4]);
+                        let sid = u32::from_be_bytes([bytes[i + 5], bytes[i + 6], bytes[i + 7], bytes[i + 8]]);
+                        if ty != 0 || sid != 5 || flags & !1 != 0 {
+                            out.viol("h2-frame", &format!("round {ri}: frame type {ty} flags {flags} stream {sid} in a body"));
+                        }
+                        if i + 9 + len > bytes.len() {
+                            out.viol("h2-frame", &format!("round {ri}: frame announces {len} bytes, {} follow", bytes.len() - i - 9));
+                            break;
+                        }
+                        if len > max {
+                            out.viol("h2-frame-size", &format!("round {ri}: DATA payload {len} above max_frame_size {max}"));
+                        }
+                        if end_seen {
+                            out.viol("h2-after-end", &format!("round {ri}: a frame follows END_STREAM"));
+                        }
+                        got.extend_from_slice(&bytes[i + 9..i + 9 + len]);
+                        sent += len;
+                        if flags & 1 != 0 {
+                            end_seen = true;
+                            toks.push(ts("E"));
+                            if len != 0 {
+                                toks.push(tn(len));
+                            }
+                        } else {
+                            toks.push(tn(len));
+                        }
+                        i += 9 + len;
+                    }
+                    if i != bytes.len() {
+                        out.viol("h2-frame", &format!("round {ri}: {} trailing bytes are not a frame", bytes.len() - i));
+                    }
+                    if before >= 0 && sent as i64 > before as i64 {
+                        out.viol("h2-window", &format!("round {ri}: {sent} bytes sent with a window of {before}"));
+                    }
+                    if *after as i64 != before as i64 - sent as i64 {
+                        out.viol("h2-window", &format!("round {ri}: window {before} -> {after} after {sent} bytes"));
+                    }
+                }
+                toks.push(ts("L"));
+                for l in &left {
+                    if *l == usize::MAX {
+                        toks.push(ts("E"));
+                    } else {
+                        toks.push(tn(*l));
+                    }
+                }
+                out.obs(&toks);
+                // the property's own oracle: payload so far is a prefix of the body; END_STREAM iff
+                // the body ended cleanly and all of it is out
+                if got.len() > body.len() || got[..] != body[..got.len()] {
+                    out.viol("h2-corrupt", "DATA payloads are not a prefix of the body");
+                }
+                if end_seen && (!ended || got.len() != body.len()) {
+                    out.viol("h2-early-end", &format!("END_STREAM with {} of {} body bytes out (ended={ended})", got.len(), body.len()));
+                }
+                let queued: usize = left.iter().filter(|l| **l != usize::MAX).sum();
+                if got.len() + queued != body.len() {
+                    out.viol("h2-lost", &format!("{} bytes out + {queued} queued != body {}", got.len(), body.len()));
+                }
+            }
             other => {
                 out.note(&format!("invalid-case: unknown op {other}"));
                 out.obs(&[]);
